@@ -116,7 +116,7 @@ def main():
     hist = [{"t": "net", "a": a_} for a_ in ("N1", "N3", "N5", "R1", "R2")] + [{"t": "miner", "a": a_} for a_ in ("M1", "M4", "M5", "M6", "M7", "M8")]
     good_h = {"id": 1, "hist": hist, "feasible": True, "errors": [],
               "out": {"x_on_disk": False, "b_on_disk": True, "x_served": False, "b_served": True, "b_bcast": True, "x_bcast": False, "buffer": 0}}
-    hc = {"XValid": False, "XValidated": True, "MinerOn": True, "SaveAfterValidation": True, "SelectiveClear": True, "AtomicRollback": True, "MinerHandOverValidated": True}
+    hc = {"XValid": False, "XValidated": True, "MinerOn": True, "SaveAfterValidation": True, "SelectiveClear": True, "AtomicRollback": True, "MinerHandOverValidated": True, "SaveBeforePublish": True}
 
     def h_run(t):
         vv_, rr_ = tracecheck.run("TraceHandover", [t], hc, ids=[1])
@@ -150,7 +150,7 @@ def main():
     crash_ev = [i for i, e in enumerate(good_c["events"]) if e["op"] == "crash"][0]
     b2 = [e for e in good_c["events"] if e["op"] == "buffer"][1]["blk"]
     for name, fn in (("a block of the killed flush read back without its transactions", lambda t: t["events"][crash_ev]["read"].append(
-                          {"id": b2["id"], "parent": b2["parent"], "height": b2["height"], "txids": [], "bytes_equal": True})),
+                          {"id": b2["id"], "parent": b2["parent"], "height": b2["height"], "txids": [], "bytes_equal": True, "merkle_ok": True})),
                      ("a block read back after the crash differs in content", lambda t: t["events"][crash_ev]["read"][0].__setitem__("bytes_equal", False)),
                      ("a block of an earlier flush lost", lambda t: t["events"][crash_ev]["read"].pop()),
                      ("ledger rebuilt after the crash differs", lambda t: t["events"][crash_ev].__setitem__("ledger_equal", False)),
